@@ -4,10 +4,14 @@ mod capi;
 mod corpus;
 mod framework;
 mod host;
+mod memcount;
 mod proggen;
 mod progscn;
 mod props;
 mod rng;
+
+#[global_allocator]
+static ALLOC: memcount::Counting = memcount::Counting;
 
 use framework::{Ctx, Tier, replay_main, run_check};
 use std::path::Path;
